@@ -50,6 +50,8 @@ pub enum Op {
     Sign(u8),
     Clear,
     Reparse,
+    /// `Package::sign` (signature time = now) instead of sign_with_timestamp
+    SignNow(u8),
 }
 
 pub fn op_any() -> BoxedStrategy<Op> {
@@ -69,6 +71,10 @@ pub fn apply_op(pkg: &mut rpm::Package, op: &Op) -> Result<(), (String, String)>
             Op::Sign(k) => {
                 let ks = crate::gen::keys::keys();
                 pkg.sign_with_timestamp(ks.signers[*k as usize % 4].clone(), SIGN_TIME)
+            }
+            Op::SignNow(k) => {
+                let ks = crate::gen::keys::keys();
+                pkg.sign(ks.signers[*k as usize % 4].clone())
             }
             Op::Clear => pkg.clear_signatures(),
             Op::Reparse => {
